@@ -105,6 +105,7 @@ func c18cli(c *ev.Ctx) {
 		{"ecdsa-malformed", ecMalformed, "bad"}, {"unknown-ssh-type", unknownTypeBlob, "bad"},
 		{"age-recipient-substituted", rcA[:20] + "q" + rcA[21:], "bad"}, {"space+recipient", " " + rcA, "bad"}, {"recipient+space", rcA + " ", "bad"}, {"identity-in-recipients-file", idA, "bad"},
 		{"recipient-upper", strings.ToUpper(rcA), "bad"}, {"garbage", "hello", "bad"}, {"overlong", "ssh-ed25519 " + strings.Repeat("A", 9000), "bad"},
+		{"age-recipient-q-replaced", c18qsub(rcA, rcB), "bad"},
 		{"ssh-space+ed25519", " " + edLine, "bad"}, {"ssh-tab+rsa", "\t" + rsaLine, "bad"}, {"ssh-spaces+ed25519", "  " + edLine, "bad"},
 	}
 	if rcA[20] == 'q' {
@@ -116,6 +117,7 @@ func c18cli(c *ev.Ctx) {
 		{"identity-substituted", idA[:30] + "Q" + idA[31:], "bad"}, {"identity-truncated", idA[:len(idA)-2], "bad"}, {"identity-lower", strings.ToLower(idA), "bad"}, {"space+identity", " " + idA, "bad"},
 		{"tab+identity", "\t" + idA, "bad"}, {"identity+space", idA + " ", "bad"}, {"identity-prefix-typo", "AGE-SECRET-KEY-2" + idA[16:], "bad"}, {"identity-prefix-typo2", "AGE-SECRET-KEZ-1" + idA[16:], "bad"},
 		{"recipient-in-identities-file", rcA, "bad"}, {"garbage", "hello", "bad"}, {"ssh-line", edLine, "bad"},
+		{"identity-q-replaced", c18qsub(idA, idB), "bad"},
 	}
 	if idA[30] == 'Q' {
 		idAlpha[7].text = idA[:30] + "P" + idA[31:]
@@ -340,4 +342,20 @@ func c18cli(c *ev.Ctx) {
 			}
 		}
 	}
+}
+
+// c18qsub replaces the first q (value 0) of the data part by a character outside the Bech32 alphabet, same case.
+func c18qsub(a, b string) string {
+	for _, s := range []string{a, b} {
+		from := strings.LastIndexByte(s, '1') + 1
+		for p := from; p < len(s)-6; p++ {
+			if s[p] == 'q' {
+				return s[:p] + "b" + s[p+1:]
+			}
+			if s[p] == 'Q' {
+				return s[:p] + "B" + s[p+1:]
+			}
+		}
+	}
+	return a[:len(a)-7] + "!" + a[len(a)-6:]
 }
